@@ -384,7 +384,7 @@ func inStep(i, start, end, step int) bool {
 	if 0 < step {
 		return start <= i && i <= end && (i-start)%step == 0
 	}
-	return end <= i && i <= start && (i-end)%-step == 0
+	return end <= i && i <= start && (start-i)%-step == 0
 }
 
 // startEndStep normalizes the slice bounds for a collection of the given
